@@ -642,23 +642,27 @@ Theorem text_then_wire : forall c fs chk st vs st',
 Proof. exact class_from_text_wire. Qed.
 Print Assumptions text_then_wire.
 
-(* the same, tied to the C02 wire model (Model/SchemaM.v, read-only): for the types whose fields are all
-   self-delimiting (integers, counted strings, names) the values returned by from_text are valid values of the
-   corresponding SchemaM fields, so SchemaM.encode_rdata passes its constructor-validation step and is the
-   field encoder itself *)
+(* the same, tied to the C02 wire model (Model/SchemaM.v, read-only): for the types made of self-delimiting
+   fields (integers, counted strings, names) possibly followed by one field that runs to the end of the record
+   (opaque octets, TXT strings) the values returned by from_text are valid values of the corresponding SchemaM
+   fields, so SchemaM.encode_rdata passes its field-validation step and is the field encoder itself (the record
+   checks CkDS / CkZONEMD / CkGPOS / CkCAA of the C02 table are on the text side schema_chk / the field checks) *)
 Theorem text_then_schema_encoder : forall c fs chk st vs st' wfs origin,
   to_fields fs = Some wfs -> class_from_text c fs chk st = Ok (vs, st') ->
-  exists xs, to_vals vs = Some xs /\
+  exists xs, to_vals fs vs = Some xs /\
     SchemaM.encode_rdata origin wfs SchemaM.CkNone xs = SchemaM.enc_fields origin wfs xs.
 Proof. exact RdTextSchemaTie.text_then_schema_encoder. Qed.
 Print Assumptions text_then_schema_encoder.
 
 Example text_then_schema_encoder_types :
-  tie_types = [2; 5; 6; 12; 13; 15; 17; 18; 19; 21; 23; 26; 27; 33; 35; 36; 39; 107; 196609]
-  (* NS CNAME SOA PTR HINFO MX RP AFSDB X25 RT NSAP-PTR PX GPOS SRV NAPTR KX DNAME LP and A of class CH *)
+  tie_types = [2; 5; 6; 12; 13; 15; 16; 17; 18; 19; 21; 22; 23; 24; 26; 27; 33; 35; 36; 37; 39; 43; 44; 46; 48; 49; 51; 52; 53;
+               56; 59; 60; 61; 63; 66; 67; 68; 99; 107; 258; 261; 262; 32769; 196609]
+  (* 44 types, among them NS CNAME SOA PTR MX TXT SRV NAPTR CERT DS SSHFP RRSIG DNSKEY DHCID NSEC3PARAM TLSA ZONEMD *)
   /\ match schema_of 15 with Some fs => to_fields fs | None => None end
-     = Some [SchemaM.FS (SchemaM.FU 2 65535); SchemaM.FS (SchemaM.FName true)].
-Proof. split; vm_compute; reflexivity. Qed.
+     = Some [SchemaM.FS (SchemaM.FU 2 65535); SchemaM.FS (SchemaM.FName true)]
+  /\ match schema_of 16 with Some fs => to_fields fs | None => None end
+     = Some [SchemaM.FRepeat true false [SchemaM.FCounted 1 0 255]].
+Proof. repeat split; vm_compute; reflexivity. Qed.
 
 Theorem text_then_wire_field : forall c f st raw st' v,
   parse_field c f st = Ok (raw, st') -> ctor_field f raw = Ok v -> wire_ok f v.
